@@ -392,7 +392,7 @@ func fenceMatchNearbys(
 	col.Intersects(geojson.NewRect(rect), 0, nil, nil,
 		func(o *object.Object) bool {
 			var idMatch bool
-			if o.ID() == obj.ID() {
+			if o.ID() == obj.ID() && fence.roam.key == fence.key {
 				return true // skip self
 			}
 			meters := obj.Geo().Distance(o.Geo())
